@@ -4,7 +4,7 @@ from __future__ import annotations
 import ast
 from typing import Dict, List, Optional
 
-from .. import AnalysisError
+from .. import AnalysisError, SkipClause
 from ..absint import EvalRaise, EvalReturn, Evaluator, Opaque, Unknown
 from ..cfg import describe_path, no_exc
 from ..program import FuncInfo, ancestors, enclosing_stmt, norm, walk_local
@@ -330,7 +330,7 @@ def check_open(ctx) -> None:
         if any(isinstance(t, ast.Name) and t.id == "open_bound" for n in ast.walk(s) if isinstance(n, ast.Assign) for t in n.targets):
             stmts.append(s)
     if not stmts:
-        raise AnalysisError("minimal_medium: the computation of open_bound was not found")
+        raise SkipClause("minimal_medium: the computation of open_bound is not in a familiar spelling (decided by C18.formulation)")
     problems = []
     for val, want in ((True, 1000), (5, 5), (250, 250), (5.0, 5.0), (2500.0, 2500.0)):
         ev = Evaluator({"open_exchanges": val})
@@ -385,6 +385,6 @@ def run(ctx) -> None:
     ctx.guard(medform.check_medium_property, ctx, "C18.formulation")
     check_convention(ctx)
     check_none(ctx)
-    check_open(ctx)
+    ctx.guard(check_open, ctx)
     check_bigm(ctx)
     fa.check_capture(ctx, "C18.capture", [("cobra.medium.minimal_medium", "minimal_medium")])
